@@ -46,8 +46,12 @@ def derive_source(case, schema_rel, query_rel):
     if o.get("extern_enums"):
         keys.append("extern_enums(%s)" % ", ".join(attr_lit(e) for e in o["extern_enums"]))
     vis = {"pub": "pub ", "pub(crate)": "pub(crate) ", "inherited": "", None: ""}[o.get("visibility")]
+    rust = (o.get("normalization") or "").strip().lower() == "rust"
     for op in doc["operations"]:
-        parts.append("#[derive(graphql_client::GraphQLQuery)]\n#[graphql(%s)]\n%sstruct %s;\n" % (", ".join(keys), vis, op["name"]))
+        # under `normalization = "rust"` the struct is named in Rust style and matched against the normalised operation name
+        from .. import names as _names
+        sname = _names.camel(op["name"]) if rust else op["name"]
+        parts.append("#[derive(graphql_client::GraphQLQuery)]\n#[graphql(%s)]\n%sstruct %s;\n" % (", ".join(keys), vis, sname))
     return "".join(parts)
 
 
